@@ -197,7 +197,7 @@ static void generate(RunSpec& s, int tier) {
   s.knobs["mem_switch_log2"] = memk[r(5)]; s.knobs["sync_switch_log2"] = synck[r(4)];
   static const int sp[] = {0, 0, 3, 15}; s.knobs["spurious_pct"] = sp[r(4)];
   static const int fz[] = {0, 0, 25, 60}; s.knobs["freeze_pct"] = fz[r(4)];
-  s.knobs["thread_fail_pct"] = r(8) == 0 ? 30 : 0;   /* the system refuses to create some worker threads (EAGAIN) */
+  s.knobs["thread_fail_pct"] = (r(8) == 0 && !churn) ? 30 : 0;   /* the system refuses to create some worker threads (EAGAIN) */
   if (churn && r(2)) { s.knobs["freeze_pct"] = 60; s.knobs["sync_switch_log2"] = 1 + r(2); s.knobs["mem_switch_log2"] = 255; }   /* half of the churn plans: pre-emption at calls only, pre-empted clients stay away long (several clients parked inside run() at once) */
   bool sleepy = r(3) == 0;
   for (int c = 0; c < nc; ++c) {
